@@ -16,19 +16,21 @@ VARIABLES l, viol, nonconf, done
 vars == <<l, viol, nonconf, done>>
 Rec == Trace[l]
 
+Cancelled(r) == "cancelat" \in DOMAIN r /\ r.cancelat # 0
 Checks(r) ==
   LET c == r.c  d == Flatten(r.pages)  w == Wanted(c) IN
   {<<"DeliveredOnceInOrder", Len(d) <= Len(w) /\ d = SubSeq(w, 1, Len(d))>>,
    <<"CompleteWhenOk", r.outcome = "ok" => d = w>>,
    <<"CallbackErrorReturned", (c.cbfail # 0 /\ Len(r.pages) >= c.cbfail) => (r.outcome = "cb" /\ Len(r.pages) = c.cbfail)>>,
-   <<"NoSpuriousError", (c.cbfail = 0 /\ c.oversize = 0) => r.outcome = "ok">>,
+   \* (Cancelled(r): the context was cancelled from inside a callback that returned nil)
+   <<"NoSpuriousError", (c.cbfail = 0 /\ c.oversize = 0 /\ ~Cancelled(r)) => r.outcome = "ok">>,
    <<"NeverOverRead", \A k \in 1..Len(r.consumed) : r.consumed[k] <= r.limit>>,
    <<"OversizeIsError", (c.oversize # 0 /\ Len(r.reqs) >= c.oversize /\ r.outcome # "cb") => r.outcome \notin {"ok"}>>,
    <<"RequestPaths", \A k \in 1..Len(r.reqs) : r.reqs[k].path = r.wantpath>>,
    <<"FilterParameterKept", \A k \in 1..Len(r.reqs) : r.reqs[k].filter = c.filter>>}
 
 \* (records of the referrers tag schema - one client-filtered index - carry no page-by-page model run)
-Conforms(r) == ("tagschema" \in DOMAIN r /\ r.tagschema) \/ LET m == Run(r.c) IN
+Conforms(r) == ("tagschema" \in DOMAIN r /\ r.tagschema) \/ Cancelled(r) \/ LET m == Run(r.c) IN
   /\ r.pages = m.pages
   /\ [k \in 1..Len(r.reqs) |-> r.reqs[k].after] = m.reqs
   /\ r.outcome = m.outcome
